@@ -240,7 +240,8 @@ def extract_iter(
                 _verif.point("Elab", frame=frame, depth=depth, tu=list(to_unwrap), te=list(to_elaborate), loops=0, errs=list(save_errors))
             continue
         if isinstance(replacement, collections.abc.Sequence):
-            items = replacement
+            # (not every sequence can be sliced, e.g. a deque)
+            items = tuple(replacement)
         else:
             items = (replacement,)
 
